@@ -157,6 +157,85 @@ def run():
         return k
     case("big_point", "BigTrace", btrace, flip_point, {"C16.PointQuery"})
 
+    # ---- planted solutions against Witness.tla
+    wtrace, _ = pv.record(["planted_chain", "planted_queens", "planted_eq"], 0, "quick", 12, d, name="planted")
+    wout = pv.tlc_trace(wtrace, os.path.join(d, "meta_planted"), spec="Witness")
+    rows.append(("base planted", "accepted=%s labels=%s" % (wout["accepted"], sorted(_labels(wout))), wout["accepted"]))
+    ok = ok and wout["accepted"]
+
+    def corrupt_witness(ev):
+        k = 0
+        for e in ev:
+            if e["e"] == "Witness" and k < 1:
+                e["vals"][-1] = e["vals"][-1] + 50        # the planted "solution" leaves its domain
+                k += 1
+        return k
+    case("witness_not_believed", "Witness", wtrace, corrupt_witness, {"BIND.Rejected"})
+
+    def corrupt_big_solution(ev):
+        k = 0
+        fam = None
+        for e in ev:
+            if e["e"] == "Reset":
+                fam = e["fam"]
+            # swap two queens of the first board: a total assignment inside the domains that violates
+            # an all-different
+            if e["e"] == "Return" and e.get("res") == "SAT" and fam == "planted_queens" and k < 3:
+                e["sol"][2] = e["sol"][1]
+                k += 1
+        return k
+    case("large_solution_value", "Witness", wtrace, corrupt_big_solution, {"C01.SolutionHolds"})
+
+    def witness_excluding_nogood(ev):
+        # a "learned nogood" that is true under the planted solution: one of its values
+        k = 0
+        wit = None
+        out = []
+        for e in ev:
+            out.append(e)
+            if e["e"] == "Witness":
+                wit = e["vals"]
+            if e["e"] == "Call" and wit is not None and k < 3:
+                out.append({"e": "Learned", "mode": "uip", "backjump": 0,
+                            "nogood": [{"x": {"v": 2, "s": 1, "o": 0}, "op": "eq", "k": wit[1]}]})
+                k += 1
+        ev[:] = out
+        return k
+    case("nogood_excludes_witness", "Witness", wtrace, witness_excluding_nogood, {"C02.NogoodImplied"})
+
+    # ---- the time-table hook events (TimeTable.tla) against Trace.tla
+    ttrace, _ = pv.record(["cumulative3"], 0, "quick", 60, d, name="tt")
+
+    def stale_time_table(ev):
+        k = 0
+        for e in ev:
+            if e["e"] == "TT" and e["what"] == "prop" and k < 5:
+                e["same"] = False
+                k += 1
+        return k
+    case("time_table_stale", "Trace", ttrace, stale_time_table, {"C08.TimeTableCurrent"})
+
+    # ---- Domains.tla behaviours replayed on the real Assignments
+    beh = os.path.join(d, "dom_beh.ndjson")
+    kbeh, _, _ = pv.tlc_generate("Gen_Domains", "Gen_Domains", beh)
+    lines = open(beh).read().splitlines()
+    picked = [json.loads(lines[i]) for i in (len(lines) // 3, len(lines) // 2, len(lines) - 1)]
+    picked[0]["lb"] += 1
+    picked[1]["at"][-1]["contains"][0] = not picked[1]["at"][-1]["contains"][0]
+    picked[2]["info"][0]["ge"]["pos"] += 1
+    bad = os.path.join(d, "dom_bad.ndjson")
+    with open(bad, "w") as f:
+        for b in picked:
+            f.write(json.dumps(b) + "\n")
+    resf = os.path.join(d, "dom_res.ndjson")
+    pv.sh([pv.PVH, "domains", "--in", bad, "--out", resf], timeout=600)
+    res = [json.loads(l) for l in open(resf)]
+    detected = sum(1 for r in res if r.get("ok") is not True)
+    good = detected == 3
+    rows.append(("domain_lookup", "3 expected look-ups of generated Domains.tla states corrupted (lower bound, "
+                 "contains at a trail position, update info); %d reported as differing by the replay" % detected, good))
+    ok = ok and good
+
     for name, what, good in rows:
         pv.log("selftest %-28s %s  %s" % (name, "ok  " if good else "FAIL", what))
     pv.log("selftest: %s" % ("every corruption was detected" if ok else "SOME CORRUPTION WENT UNNOTICED"))
